@@ -19,7 +19,9 @@ def confirm(pid, x):
     try:
         demo = open(os.path.join(src, "demo_test.go")).read()
         pkgdir = wt + ("/css" if "package css" in demo.split("\n", 5)[0:5].__str__() else "")
-        test = "TestSeeded" + x.upper()
+        import re
+        mm = re.search(r"func (TestSeeded\w*)\(", demo)
+        test = mm.group(1) if mm else "TestSeeded" + x.upper()
         res = {}
         shutil.copy(os.path.join(src, "demo_test.go"), os.path.join(pkgdir, "zz_demo_test.go"))
         rc, out = sh("go test -vet=off -count=1 -run '^%s$' ." % test, cwd=pkgdir)
